@@ -8,7 +8,7 @@ CFG = """SPECIFICATION MCSpec
 CONSTANTS
   Fams = {fams}
   KnownDev = {known}
-INVARIANTS Emit OracleErrPaths OracleNoOpNoCall OracleFaultMonotone OracleMergeEquiv
+INVARIANTS Emit OracleErrPaths OracleNoOpNoCall OracleFaultMonotone OracleMergeEquiv OraclePrecedence
 CHECK_DEADLOCK FALSE
 """
 
@@ -155,7 +155,7 @@ PLANS = {
     "C01": (["flat", "nest1", "nest2", "nest3", "inline1", "inline2", "spread", "dups", "args", "ops"], [], {"data", "opchoice"}),
     "C06": (["fault0", "fault1", "faultnth"], ["fault2"], {"errors", "data"}),
     "C09": (["dirs"], [], {"data", "calls"}),
-    "C10": (["defect"], [], {"errors_cover", "calls", "data", "opchoice"}),
+    "C10": (["defect", "defectabs"], [], {"errors_cover", "calls", "data", "opchoice"}),
 }
 
 
@@ -191,14 +191,56 @@ def run_c11(ctx):
                 "ExecJudge.tla. non-trivial = session whose calls are not all identical; distinct by (document, call sequence, strategy)" % n)
 
 
+COMMON = ["flat", "nest1", "nest2", "nest3", "inline1", "inline2", "spread", "dups", "args", "ops", "inputs", "fault0", "fault1"]
+
+
+def run_c02(ctx):
+    devs = known_devs(FAMILY_PROPS)
+    aspects = {"data", "errors", "opchoice", "calls", "precedence"}
+    fams = COMMON + ["mixed"] + (["fault2", "dirs"] if ctx.tier == "thorough" else [])
+    vecs, uni, devs = enumerate_cases(ctx, fams)
+    rep = replay(ctx, vecs, uni, "replay-3-strategies", strategies="iface,any,refl")
+    absorb(ctx, rep, "replay-3-strategies", aspects, devs, ctx.prop)
+    # direction B: random documents on the fixed universe with all three strategies (universes=0)
+    record_and_judge(ctx, uni, "record-3-strategies", aspects - {"precedence"}, devs, ctx.prop, 1200 if ctx.tier == "quick" else 12000,
+                     strategies="iface,any,refl", universes=0)
+    ctx.exhaustive = True
+    ctx.rule = ("every case of the families %s (the feature set common to the strategies) is executed with the data realised as Resolver objects, "
+                "behind an AnyResolver, as reflected Go structs/methods bound by name, by RegisterType and by @go, and - family 'mixed' - with every "
+                "assignment of {Resolver object, plain data} to the nodes with and without a root resolver installed; every response must equal Sem's "
+                "(hence each other) and every call must be served by the strategy the precedence rule Sem!Via prescribes. non-trivial = at least two "
+                "resolver calls; distinct by (case, strategy)" % fams)
+    ctx.assumptions.append("reflected methods cannot observe omitted/null arguments: cases with partially supplied arguments run on the other two strategies only")
+
+
+def run_c08(ctx):
+    devs = known_devs(FAMILY_PROPS)
+    aspects = {"data", "calls"}
+    vecs, uni, devs = enumerate_cases(ctx, ["abstract", "defectabs", "inline1", "inline2", "spread"])
+    rep = replay(ctx, vecs, uni, "replay-refl", strategies="refl")
+    absorb(ctx, rep, "replay-refl", aspects, devs, ctx.prop)
+    record_and_judge(ctx, uni, "record-refl-abstract", aspects, devs, ctx.prop, 1200 if ctx.tier == "quick" else 12000,
+                     strategies="refl", universes=0, extra=["-abstract"], depth=4)
+    ctx.exhaustive = True
+    ctx.rule = ("families abstract/defectabs/inline/spread: every (container kind in {object, interface, union, lists of them}) x (type condition in "
+                "{each object, interface, union, none}) x concrete type, inline and named, nested, executed with reflected Go types bound by name, "
+                "by RegisterType and by @go; data and call log must equal Sem's (which decides by the Applies relation); random documents with abstract "
+                "conditions recorded and judged by ExecJudge.tla. non-trivial = at least two resolver calls")
+    ctx.assumptions.append("the Resolver-interface-only limitation documented by ggql is outside the claim: these families run on the reflection strategy")
+
+
 def run(ctx):
     if ctx.prop == "C11":
         return run_c11(ctx)
+    if ctx.prop == "C02":
+        return run_c02(ctx)
+    if ctx.prop == "C08":
+        return run_c08(ctx)
     if ctx.prop in PLANS:
         quick, more, aspects = PLANS[ctx.prop]
         fams = quick + (more if ctx.tier == "thorough" else [])
         vecs, uni, devs = enumerate_cases(ctx, fams)
-        rep = replay(ctx, vecs, uni, "replay")
+        rep = replay(ctx, vecs, uni, "replay", strategies="iface,any,refl" if ctx.prop == "C10" else "iface,any")
         absorb(ctx, rep, "replay", aspects, devs, ctx.prop)
         record_and_judge(ctx, uni, "record", aspects, devs, ctx.prop, 1500 if ctx.tier == "quick" else 12000,
                          universes=12 if ctx.tier == "quick" else 60)
